@@ -1,31 +1,487 @@
 /- Helper lemmas for C02 (verification = documented meaning). Statements mirror Props/C02.lean. -/
 import TddaVerif.Model.Constraints
 import TddaVerif.Props.C02Spec
+import TddaVerif.Lemmas.ValOrder
 
 namespace TddaVerif.Props.C02.Lemmas
-open TddaVerif.Constraints TddaVerif.Props.C02
+open TddaVerif.Constraints TddaVerif.Props.C02 TddaVerif.Constraints.Order
 
 theorem fuzzDown_eq (y eps : Rat) : fuzzDown y eps = y - eps * absRat y := by
-  sorry
+  unfold fuzzDown absRat; split <;> grind
 
 theorem fuzzUp_eq (y eps : Rat) : fuzzUp y eps = y + eps * absRat y := by
-  sorry
+  unfold fuzzUp absRat; split <;> grind
+
+/-! ### min / max: the comparison at one value is the documented admission test -/
+
+theorem fuzzyGe_iff (v b : Val) (eps : Rat) : fuzzyGe v b eps = true ↔
+    (b.le v = true ∨ ∃ x y, v.num = some x ∧ b.num = some y ∧ y - eps * absRat y ≤ x) := by
+  unfold fuzzyGe
+  rw [Bool.or_eq_true]
+  cases hv : v.num <;> cases hb : b.num <;> simp [fuzzDown_eq]
+
+theorem fuzzyLe_iff (v b : Val) (eps : Rat) : fuzzyLe v b eps = true ↔
+    (v.le b = true ∨ ∃ x y, v.num = some x ∧ b.num = some y ∧ x ≤ y + eps * absRat y) := by
+  unfold fuzzyLe
+  rw [Bool.or_eq_true]
+  cases hv : v.num <;> cases hb : b.num <;> simp [fuzzUp_eq]
+
+theorem minOk_iff_admits (cfg : Cfg) (p : Precision) (v b : Val) :
+    minOk cfg p v b = true ↔ AdmitsMin cfg p b v := by
+  unfold minOk AdmitsMin
+  by_cases hc : v.coarse = b.coarse
+  · simp only [hc, bne_self_eq_false, Bool.false_eq_true, if_false, true_and, Bool.or_eq_true,
+      beq_iff_eq]
+    split
+    · rfl
+    · split
+      · rfl
+      · exact fuzzyGe_iff v b cfg.epsilon
+  · simp [hc]
+
+theorem maxOk_iff_admits (cfg : Cfg) (p : Precision) (v b : Val) :
+    maxOk cfg p v b = true ↔ AdmitsMax cfg p b v := by
+  unfold maxOk AdmitsMax
+  by_cases hc : v.coarse = b.coarse
+  · simp only [hc, bne_self_eq_false, Bool.false_eq_true, if_false, true_and, Bool.or_eq_true,
+      beq_iff_eq]
+    split
+    · rfl
+    · split
+      · rfl
+      · exact fuzzyLe_iff v b cfg.epsilon
+  · simp [hc]
+
+/-- if the bound admits `m` as a minimum it admits every larger value -/
+theorem admitsMin_mono (cfg : Cfg) (p : Precision) (b m v : Val) (hle : m.le v = true)
+    (h : AdmitsMin cfg p b m) : AdmitsMin cfg p b v := by
+  have hc : m.coarse = v.coarse := le_coarse m v hle
+  unfold AdmitsMin at *
+  refine ⟨hc ▸ h.1, ?_⟩
+  have h2 := h.2
+  split at h2
+  · rename_i hcond; rw [if_pos hcond]; exact le_trans _ _ _ h2 hle
+  · rename_i hcond; rw [if_neg hcond]
+    split at h2
+    · rename_i hp; rw [if_pos hp]; exact lt_of_lt_of_le _ _ _ h2 hle
+    · rename_i hp; rw [if_neg hp]
+      rcases h2 with h2 | ⟨x, y, hx, hy, hxy⟩
+      · exact Or.inl (le_trans _ _ _ h2 hle)
+      · obtain ⟨x', hx'⟩ := num_of_coarse m v x hc hx
+        have : x ≤ x' := (le_num m v x x' hx hx').mp hle
+        exact Or.inr ⟨x', y, hx', hy, by grind⟩
+
+theorem admitsMax_mono (cfg : Cfg) (p : Precision) (b m v : Val) (hle : v.le m = true)
+    (h : AdmitsMax cfg p b m) : AdmitsMax cfg p b v := by
+  have hc : v.coarse = m.coarse := le_coarse v m hle
+  unfold AdmitsMax at *
+  refine ⟨hc ▸ h.1, ?_⟩
+  have h2 := h.2
+  split at h2
+  · rename_i hcond; rw [if_pos hcond]; exact le_trans _ _ _ hle h2
+  · rename_i hcond; rw [if_neg hcond]
+    split at h2
+    · rename_i hp; rw [if_pos hp]; exact lt_of_le_of_lt _ _ _ hle h2
+    · rename_i hp; rw [if_neg hp]
+      rcases h2 with h2 | ⟨x, y, hx, hy, hxy⟩
+      · exact Or.inl (le_trans _ _ _ hle h2)
+      · obtain ⟨x', hx'⟩ := num_of_coarse m v x hc.symm hx
+        have : x' ≤ x := (le_num v m x' x hx' hx).mp hle
+        exact Or.inr ⟨x', y, hx', hy, by grind⟩
+
+theorem spec_min (cfg : Cfg) (c : Column) (hwf : c.WF = true) (detect : Bool) (b : Val)
+    (p : Precision) : verifyOn cfg c detect (.min (some b) p) = true ↔ Sat cfg c (.min (some b) p) := by
+  simp only [verifyOn, Sat, calcMin]
+  have hs := wf_sameCoarse c hwf
+  cases hm : minOf c.nonNull with
+  | none =>
+    have : c.nonNull = [] := (minOf_eq_none _).mp hm
+    simp [this]
+  | some m =>
+    simp only
+    rw [minOk_iff_admits]
+    constructor
+    · intro h v hv
+      exact admitsMin_mono cfg p b m v (minOf_le _ m hs hm v hv) h
+    · intro h
+      exact h m (minOf_mem _ m hm)
+
+theorem spec_max (cfg : Cfg) (c : Column) (hwf : c.WF = true) (detect : Bool) (b : Val)
+    (p : Precision) : verifyOn cfg c detect (.max (some b) p) = true ↔ Sat cfg c (.max (some b) p) := by
+  simp only [verifyOn, Sat, calcMax]
+  have hs := wf_sameCoarse c hwf
+  cases hm : maxOf c.nonNull with
+  | none =>
+    have : c.nonNull = [] := (maxOf_eq_none _).mp hm
+    simp [this]
+  | some m =>
+    simp only
+    rw [maxOk_iff_admits]
+    constructor
+    · intro h v hv
+      exact admitsMax_mono cfg p b m v (maxOf_ge _ m hs hm v hv) h
+    · intro h
+      exact h m (maxOf_mem _ m hm)
+
+/-! ### sign -/
+
+theorem signOk_iff (s : Sign) (l : List Val) (hs : SameCoarse l) (m M : Val)
+    (hm : minOf l = some m) (hM : maxOf l = some M) :
+    signOk s m M = true ↔ ∀ v ∈ l, ∃ q, v.num = some q ∧ SignHolds s q := by
+  have hmm := minOf_mem l m hm
+  have hMm := maxOf_mem l M hM
+  unfold signOk
+  cases ha : m.num with
+  | none =>
+    simp only [Bool.false_eq_true, false_iff]
+    intro h
+    obtain ⟨q, hq, _⟩ := h m hmm
+    rw [ha] at hq; exact absurd hq (by simp)
+  | some a =>
+    obtain ⟨b, hb⟩ := num_of_coarse m M a (hs m hmm M hMm) ha
+    rw [hb]
+    simp only
+    have hall : ∀ v ∈ l, ∃ q, v.num = some q ∧ a ≤ q ∧ q ≤ b := by
+      intro v hv
+      obtain ⟨q, hq⟩ := num_of_coarse m v a (hs m hmm v hv) ha
+      exact ⟨q, hq, (le_num m v a q ha hq).mp (minOf_le l m hs hm v hv),
+        (le_num v M q b hq hb).mp (maxOf_ge l M hs hM v hv)⟩
+    constructor
+    · intro h v hv
+      obtain ⟨q, hq, h1, h2⟩ := hall v hv
+      refine ⟨q, hq, ?_⟩
+      cases s <;> simp [SignHolds] at h ⊢ <;> grind
+    · intro h
+      obtain ⟨qa, hqa, h1⟩ := h m hmm
+      obtain ⟨qb, hqb, h2⟩ := h M hMm
+      rw [ha] at hqa; rw [hb] at hqb
+      simp only [Option.some.injEq] at hqa hqb
+      subst hqa; subst hqb
+      cases s <;> simp [SignHolds] at h1 h2 ⊢ <;> grind
+
+theorem spec_sign (cfg : Cfg) (c : Column) (hwf : c.WF = true) (detect : Bool) (s : Sign) :
+    verifyOn cfg c detect (.sign (some s)) = true ↔ Sat cfg c (.sign (some s)) := by
+  simp only [verifyOn, Sat, calcMin, calcMax]
+  have hs := wf_sameCoarse c hwf
+  cases hm : minOf c.nonNull with
+  | none =>
+    have : c.nonNull = [] := (minOf_eq_none _).mp hm
+    simp [this]
+  | some m =>
+    cases hM : maxOf c.nonNull with
+    | none =>
+      have : c.nonNull = [] := (maxOf_eq_none _).mp hM
+      simp [this, minOf] at hm
+    | some M =>
+      simp only
+      exact signOk_iff s _ hs m M hm hM
+
+/-! ### max_nulls -/
+
+theorem filter_isNone_length (cells : List (Option Val)) :
+    (cells.filter (·.isNone)).length + (cells.filterMap id).length = cells.length := by
+  induction cells with
+  | nil => simp
+  | cons x xs ih => cases x <;> simp <;> omega
+
+theorem nullCells_eq (c : Column) : calcNullCount c = nullCells c := by
+  have := filter_isNone_length c.cells
+  unfold calcNullCount nullCells Column.nonNull
+  omega
+
+/-! ### lengths -/
+
+theorem listMin_eq_none (l : List Nat) : listMin l = none ↔ l = [] := by
+  cases l with
+  | nil => simp [listMin]
+  | cons v vs => simp only [listMin]; split <;> simp
+
+theorem listMax_eq_none (l : List Nat) : listMax l = none ↔ l = [] := by
+  cases l with
+  | nil => simp [listMax]
+  | cons v vs => simp only [listMax]; split <;> simp
+
+theorem le_listMin_iff : ∀ (l : List Nat) (m : Nat), listMin l = some m →
+    ∀ n : Int, n ≤ (m : Int) ↔ ∀ x ∈ l, n ≤ (x : Int)
+  | [], _ => by simp [listMin]
+  | x :: xs, m => by
+    have ih := le_listMin_iff xs
+    simp only [listMin]
+    split
+    · rename_i hn
+      have : xs = [] := (listMin_eq_none xs).mp hn
+      subst this
+      intro h n; simp at h; subst h; simp
+    · rename_i m' hm'
+      intro h n; simp at h; subst h
+      simp only [List.mem_cons, forall_eq_or_imp]
+      rw [← ih m' hm' n]
+      omega
+
+theorem listMax_le_iff : ∀ (l : List Nat) (m : Nat), listMax l = some m →
+    ∀ n : Int, (m : Int) ≤ n ↔ ∀ x ∈ l, (x : Int) ≤ n
+  | [], _ => by simp [listMax]
+  | x :: xs, m => by
+    have ih := listMax_le_iff xs
+    simp only [listMax]
+    split
+    · rename_i hn
+      have : xs = [] := (listMax_eq_none xs).mp hn
+      subst this
+      intro h n; simp at h; subst h; simp
+    · rename_i m' hm'
+      intro h n; simp at h; subst h
+      simp only [List.mem_cons, forall_eq_or_imp]
+      rw [← ih m' hm' n]
+      omega
+
+theorem mem_strLens (c : Column) (n : Nat) :
+    n ∈ strLens c ↔ ∃ x, Val.s x ∈ c.nonNull ∧ x.length = n := by
+  unfold strLens
+  rw [List.mem_filterMap]
+  constructor
+  · rintro ⟨v, hv, h⟩
+    cases v <;> simp at h
+    rename_i x
+    exact ⟨x, hv, h⟩
+  · rintro ⟨x, hx, h⟩
+    exact ⟨.s x, hx, by simp [h]⟩
+
+theorem spec_minLength (cfg : Cfg) (c : Column) (detect : Bool) (n : Int) :
+    verifyOn cfg c detect (.minLength (some n)) = true ↔ Sat cfg c (.minLength (some n)) := by
+  simp only [verifyOn, Sat, calcMinLength]
+  by_cases hf : c.ftype = .string
+  · simp only [hf, bne_self_eq_false, Bool.false_eq_true, if_false, true_and]
+    cases hm : listMin (strLens c) with
+    | none =>
+      have h0 : strLens c = [] := (listMin_eq_none _).mp hm
+      simp only [true_iff]
+      intro v hv x hx
+      subst hx
+      have : x.length ∈ strLens c := (mem_strLens c _).mpr ⟨x, hv, rfl⟩
+      rw [h0] at this; exact absurd this (by simp)
+    | some m =>
+      simp only [decide_eq_true_eq]
+      rw [le_listMin_iff _ m hm n]
+      constructor
+      · intro h v hv x hx
+        subst hx
+        exact h _ ((mem_strLens c _).mpr ⟨x, hv, rfl⟩)
+      · intro h k hk
+        obtain ⟨x, hx, hlen⟩ := (mem_strLens c k).mp hk
+        subst hlen
+        exact h _ hx x rfl
+  · simp [hf]
+
+theorem spec_maxLength (cfg : Cfg) (c : Column) (detect : Bool) (n : Int) :
+    verifyOn cfg c detect (.maxLength (some n)) = true ↔ Sat cfg c (.maxLength (some n)) := by
+  simp only [verifyOn, Sat, calcMaxLength]
+  by_cases hf : c.ftype = .string
+  · simp only [hf, bne_self_eq_false, Bool.false_eq_true, if_false, true_and]
+    cases hm : listMax (strLens c) with
+    | none =>
+      have h0 : strLens c = [] := (listMax_eq_none _).mp hm
+      simp only [true_iff]
+      intro v hv x hx
+      subst hx
+      have : x.length ∈ strLens c := (mem_strLens c _).mpr ⟨x, hv, rfl⟩
+      rw [h0] at this; exact absurd this (by simp)
+    | some m =>
+      simp only [decide_eq_true_eq]
+      rw [listMax_le_iff _ m hm n]
+      constructor
+      · intro h v hv x hx
+        subst hx
+        exact h _ ((mem_strLens c _).mpr ⟨x, hv, rfl⟩)
+      · intro h k hk
+        obtain ⟨x, hx, hlen⟩ := (mem_strLens c k).mp hk
+        subst hlen
+        exact h _ hx x rfl
+  · simp [hf]
+
+/-! ### type -/
+
+theorem nonInteger_zero_iff (c : Column) :
+    (calcNonIntegerCount c == 0) = true ↔ ∀ v ∈ c.nonNull, ∀ q, v = Val.r q → q.den = 1 := by
+  unfold calcNonIntegerCount
+  rw [beq_iff_eq, List.length_eq_zero_iff, List.filter_eq_nil_iff]
+  constructor
+  · intro h v hv q hq
+    subst hq
+    have := h _ hv
+    simpa [Rat.isWhole] using this
+  · intro h v hv
+    cases v <;> simp
+    rename_i q
+    simpa [Rat.isWhole] using h _ hv q rfl
+
+theorem allBoolean_iff (c : Column) :
+    calcAllNonNullsBoolean c = true ↔ ∀ v ∈ c.nonNull, ∃ b, v = Val.b b := by
+  unfold calcAllNonNullsBoolean
+  rw [List.all_eq_true]
+  constructor
+  · intro h v hv
+    have := h v hv
+    cases v <;> simp at this ⊢
+  · intro h v hv
+    obtain ⟨b, hb⟩ := h v hv
+    subst hb; rfl
+
+theorem spec_type (cfg : Cfg) (c : Column) (detect : Bool) (ts : List FType) :
+    verifyOn cfg c detect (.type (some ts)) = true ↔ Sat cfg c (.type (some ts)) := by
+  simp only [verifyOn, Sat]
+  by_cases h1 : c.ftype ∈ ts
+  · simp [h1]
+  · have h1' : ts.contains c.ftype = false := by simpa using h1
+    simp only [h1', Bool.false_eq_true, if_false, h1, false_or]
+    cases hstrict : cfg.strict with
+    | true => simp
+    | false =>
+      simp only [Bool.false_eq_true, if_false, true_and]
+      rw [← nonInteger_zero_iff, ← allBoolean_iff]
+      by_cases hr : c.ftype = .real
+      · simp [hr]
+        by_cases hi : FType.int ∈ ts <;> by_cases hb : FType.bool ∈ ts <;> simp [hi, hb]
+      · by_cases hstr : c.ftype = .string
+        · simp [hstr]
+        · simp [hr, hstr]
+
+/-! ### no_duplicates / allowed_values / rex -/
+
+theorem spec_noDup (cfg : Cfg) (c : Column) (detect : Bool) :
+    verifyOn cfg c detect (.noDuplicates (some true)) = true ↔ Sat cfg c (.noDuplicates (some true)) := by
+  simp only [verifyOn, Sat, calcNunique, calcNonNullCount, beq_iff_eq]
+  exact dedup_length_eq_iff _
+
+theorem allowed_all_iff (l vs : List Val) :
+    (dedup l).all (fun u => vs.any (fun a => a.eqv u)) = true ↔
+      ∀ v ∈ l, ∃ a ∈ vs, a.eqv v = true := by
+  rw [dedup_all (fun u => vs.any (fun a => a.eqv u))]
+  · simp [List.all_eq_true, List.any_eq_true]
+  · intro a b hab h
+    simp only [List.any_eq_true] at h ⊢
+    obtain ⟨w, hw, hwa⟩ := h
+    exact ⟨w, hw, eqv_trans _ _ _ hwa hab⟩
+
+theorem spec_allowed (cfg : Cfg) (c : Column) (detect : Bool) (vs : List Val) :
+    verifyOn cfg c detect (.allowedValues (some vs)) = true ↔ Sat cfg c (.allowedValues (some vs)) := by
+  simp only [verifyOn, Sat]
+  split
+  · rename_i hcond
+    simp only [calcNunique, Bool.and_eq_true, Bool.not_eq_eq_eq_not, Bool.not_true, gt_iff_lt,
+      decide_eq_true_eq] at hcond
+    have hlt := hcond.2
+    simp only [Bool.false_eq_true, false_iff]
+    intro h
+    have := length_le_of_matched (dedup c.nonNull) vs (dedup_pairwise _)
+      (fun u hu => h u (mem_of_mem_dedup _ u hu))
+    omega
+  · exact allowed_all_iff _ _
+
+theorem spec_rex (cfg : Cfg) (c : Column) (detect : Bool) (rs : List Nat) :
+    verifyOn cfg c detect (.rex (some rs)) = true ↔ Sat cfg c (.rex (some rs)) := by
+  simp only [verifyOn, Sat]
+  by_cases hf : c.ftype = .string
+  · simp only [hf, bne_self_eq_false, Bool.false_eq_true, if_false, true_and, List.all_eq_true]
+    constructor
+    · intro h v hv
+      have := h v hv
+      cases v <;> simp at this
+      rename_i x
+      exact ⟨x, rfl, by simpa using this⟩
+    · intro h v hv
+      obtain ⟨x, hx, r, hr, hrx⟩ := h v hv
+      subst hx
+      simp only [List.any_eq_true]
+      exact ⟨r, hr, hrx⟩
+  · simp [hf]
+
+/-! ### the main statement -/
 
 theorem verify_eq_spec (cfg : Cfg) (heps : 0 ≤ cfg.epsilon) (c : Column) (hwf : c.WF = true)
     (detect : Bool) (k : Constraint) : verifyOn cfg c detect k = true ↔ Sat cfg c k := by
-  sorry
+  have _ := heps  -- the equivalence holds for every ε; the hypothesis is kept for the interface
+  cases k with
+  | type ts => cases ts with
+    | none => simp [verifyOn, Sat]
+    | some ts => exact spec_type cfg c detect ts
+  | min v p => cases v with
+    | none => simp [verifyOn, Sat]
+    | some b => exact spec_min cfg c hwf detect b p
+  | max v p => cases v with
+    | none => simp [verifyOn, Sat]
+    | some b => exact spec_max cfg c hwf detect b p
+  | minLength n => cases n with
+    | none => simp [verifyOn, Sat]
+    | some n => exact spec_minLength cfg c detect n
+  | maxLength n => cases n with
+    | none => simp [verifyOn, Sat]
+    | some n => exact spec_maxLength cfg c detect n
+  | sign s => cases s with
+    | none => simp [verifyOn, Sat]
+    | some s => exact spec_sign cfg c hwf detect s
+  | maxNulls n => cases n with
+    | none => simp [verifyOn, Sat]
+    | some n => simp only [verifyOn, Sat, nullCells_eq, decide_eq_true_eq]
+  | noDuplicates v => cases v with
+    | none => simp [verifyOn, Sat]
+    | some b => cases b with
+      | false => simp [verifyOn, Sat]
+      | true => exact spec_noDup cfg c detect
+  | allowedValues vs => cases vs with
+    | none => simp [verifyOn, Sat]
+    | some vs => exact spec_allowed cfg c detect vs
+  | rex rs => cases rs with
+    | none => simp [verifyOn, Sat]
+    | some rs => exact spec_rex cfg c detect rs
 
 theorem verify_flag_irrelevant (cfg : Cfg) (heps : 0 ≤ cfg.epsilon) (c : Column) (hwf : c.WF = true)
     (k : Constraint) : verifyOn cfg c true k = verifyOn cfg c false k := by
-  sorry
+  rw [Bool.eq_iff_iff, verify_eq_spec cfg heps c hwf true k, verify_eq_spec cfg heps c hwf false k]
 
 theorem missing_field_fails (cfg : Cfg) (frame : List Column) (f : List Char) (detect : Bool)
     (k : Constraint) (h : findCol frame f = none) : verifyOne cfg frame f detect k = false := by
-  sorry
+  simp [verifyOne, h]
 
 theorem null_value_passes (cfg : Cfg) (c : Column) (detect : Bool) (k : Constraint)
     (h : isNullC k = true) : verifyOn cfg c detect k = true := by
-  sorry
+  cases k with
+  | type v => cases v <;> simp [isNullC] at h <;> simp [verifyOn]
+  | min v p => cases v <;> simp [isNullC] at h <;> simp [verifyOn]
+  | max v p => cases v <;> simp [isNullC] at h <;> simp [verifyOn]
+  | minLength v => cases v <;> simp [isNullC] at h <;> simp [verifyOn]
+  | maxLength v => cases v <;> simp [isNullC] at h <;> simp [verifyOn]
+  | sign v => cases v <;> simp [isNullC] at h <;> simp [verifyOn]
+  | maxNulls v => cases v <;> simp [isNullC] at h <;> simp [verifyOn]
+  | noDuplicates v => cases v <;> simp [isNullC] at h <;> simp [verifyOn]
+  | allowedValues v => cases v <;> simp [isNullC] at h <;> simp [verifyOn]
+  | rex v => cases v <;> simp [isNullC] at h <;> simp [verifyOn]
+
+/-! ### totals -/
+
+theorem countTrue_add_countFalse (l : List Bool) : countTrue l + countFalse l = l.length := by
+  induction l with
+  | nil => rfl
+  | cons b bs ih =>
+    cases b <;> simp [countTrue, countFalse] at ih ⊢ <;> omega
+
+theorem countTrue_append (a b : List Bool) : countTrue (a ++ b) = countTrue a + countTrue b := by
+  simp [countTrue]
+
+theorem countFalse_append (a b : List Bool) : countFalse (a ++ b) = countFalse a + countFalse b := by
+  simp [countFalse]
+
+theorem countTrue_flatten (ls : List (List Bool)) :
+    countTrue ls.flatten = (ls.map countTrue).sum := by
+  induction ls with
+  | nil => rfl
+  | cons l ls ih => simp [countTrue_append, ih]
+
+theorem countFalse_flatten (ls : List (List Bool)) :
+    countFalse ls.flatten = (ls.map countFalse).sum := by
+  induction ls with
+  | nil => rfl
+  | cons l ls ih => simp [countFalse_append, ih]
 
 theorem totals_exact (cfg : Cfg) (frame : List Column) (detect : Bool)
     (cs : List (List Char × List Constraint)) :
@@ -36,14 +492,30 @@ theorem totals_exact (cfg : Cfg) (frame : List Column) (detect : Bool)
     v.failures = countFalse (v.fields.map (·.verdicts)).flatten ∧
     v.fields.map (·.field) = cs.map (·.1) ∧
     v.fields.map (·.verdicts.length) = cs.map (·.2.length) := by
-  sorry
+  intro v
+  refine ⟨?_, ?_, ?_, ?_, ?_⟩
+  · intro f hf
+    simp only [v, verifyAll, List.mem_map] at hf
+    obtain ⟨fc, _, rfl⟩ := hf
+    exact ⟨rfl, rfl, countTrue_add_countFalse _⟩
+  · simp only [v, verifyAll, countTrue_flatten, List.map_map]
+    rfl
+  · simp only [v, verifyAll, countFalse_flatten, List.map_map]
+    rfl
+  · simp only [v, verifyAll, List.map_map]
+    rfl
+  · simp only [v, verifyAll, List.map_map]
+    apply List.map_congr_left
+    intro fc _
+    simp
 
 /-- the verdict lists are the verifier applied to each constraint, field by field, in order -/
 theorem verdicts_eq (cfg : Cfg) (frame : List Column) (detect : Bool)
     (cs : List (List Char × List Constraint)) :
     (verifyAll cfg frame detect cs).fields.map (·.verdicts)
       = cs.map (fun fc => fc.2.map (verifyOne cfg frame fc.1 detect)) := by
-  sorry
+  simp only [verifyAll, List.map_map]
+  rfl
 
 theorem null_constraint_inert (cfg : Cfg) (frame : List Column) (detect : Bool)
     (pre post : List (List Char × List Constraint)) (f : List Char) (ks : List Constraint)
@@ -51,6 +523,19 @@ theorem null_constraint_inert (cfg : Cfg) (frame : List Column) (detect : Bool)
     let v := verifyAll cfg frame detect (pre ++ (f, ks) :: post)
     let v' := verifyAll cfg frame detect (pre ++ (f, ks ++ [k]) :: post)
     v'.passes = v.passes + 1 ∧ v'.failures = v.failures ∧ verifyOne cfg frame f detect k = true := by
-  sorry
+  have hone : verifyOne cfg frame f detect k = true := by
+    unfold verifyOne
+    cases hc : findCol frame f with
+    | none => rw [hc] at hf; exact absurd hf (by simp)
+    | some c => exact null_value_passes cfg c detect k hk
+  intro v v'
+  refine ⟨?_, ?_, hone⟩
+  · simp only [v, v', verifyAll, List.map_append, List.map_cons, List.sum_append, List.sum_cons,
+      countTrue_append, hone]
+    simp [countTrue]
+    omega
+  · simp only [v, v', verifyAll, List.map_append, List.map_cons, List.sum_append, List.sum_cons,
+      countFalse_append, hone]
+    simp [countFalse]
 
 end TddaVerif.Props.C02.Lemmas
